@@ -17,7 +17,7 @@ import (
 	"verif/harness/sm"
 )
 
-const ruleC04 = "a generated state (seed batch, optional indexes, 0-6 further writes) and one operation under test of every kind (Insert batches, Save, ReplaceById, UpdateById, Update/UpdateFunc with and without sort/skip/limit, Delete, DeleteById, Create/DropCollection, Create/DropIndex, ImportCollection, CreateCollectionByQuery, ExportCollection and all reads), on bbolt and badger. (i) invalid input: duplicate/malformed _id at any batch position, invalid update results, missing/existing collection/index/document: when the call returns an error the raw key/value dump of the undecorated store must equal the dump before the call. (ii) store faults: a dry run on a clone gives the number M of fallible store calls (begin, get, set, delete, cursor item, commit) the operation makes; for each chosen position k <= M (quick: at most 40 spread evenly with both ends; thorough: every k up to 3000) the k-th call fails: the call must return an error, the dump must be unchanged (values compared decoded when bytes differ). Afterwards a CreateCollection + Insert on the same handle must succeed within the deadline and the un-faulted operation must behave as the model says. An evaluation is one faulted (or invalid) run; non-trivial when the failing call comes after at least one successful Set/Delete of the same operation, or the offending document is at batch position >= 1; distinct = distinct (state, operation, k)."
+const ruleC04 = "a generated state (seed batch, optional indexes, 0-6 further writes) and one operation under test of every kind (Insert batches, Save, ReplaceById, UpdateById, Update/UpdateFunc with and without sort/skip/limit, Delete, DeleteById, Create/DropCollection, Create/DropIndex, ImportCollection, CreateCollectionByQuery, ExportCollection and all reads), on bbolt and badger. (i) invalid input: duplicate/malformed _id at any batch position (incl. position 1000+ of batches of 1001-2500 documents), criteria operands that cannot be normalised, invalid update results, missing/existing collection/index/document: when the call returns an error the raw key/value dump of the undecorated store must equal the dump before the call. (ii) store faults: a dry run on a clone gives the number M of fallible store calls (begin, get, set, delete, cursor item, commit) the operation makes; for each chosen position k <= M (quick: at most 40 spread evenly with both ends; thorough: every k up to 3000) the k-th call fails: the call must return an error, the dump must be unchanged (values compared decoded when bytes differ). Afterwards a CreateCollection + Insert on the same handle must succeed within the deadline and the un-faulted operation must behave as the model says. An evaluation is one faulted (or invalid) run; non-trivial when the failing call comes after at least one successful Set/Delete of the same operation, or the offending document is at batch position >= 1; distinct = distinct (state, operation, k)."
 
 type c04Case struct {
 	Backend string  `json:"backend"`
@@ -36,8 +36,8 @@ func c04Profile() *sm.Profile {
 		MaxDocs:     14,
 		BadIds:      true,
 		BadDocs:     true,
-		Crit:        gen.CritEnv{Val: gen.ValCfg{MaxDepth: 0}, MaxDepth: 2, NoFunc: true},
-		Weights: []sm.W{{Kind: "createcoll", Weight: 4}, {Kind: "dropcoll", Weight: 5}, {Kind: "insert", Weight: 16}, {Kind: "insertone", Weight: 2},
+		Crit:        gen.CritEnv{Val: gen.ValCfg{MaxDepth: 0}, MaxDepth: 2, NoFunc: true, Bad: true},
+		Weights: []sm.W{{Kind: "biginsert", Weight: 1}, {Kind: "createcoll", Weight: 4}, {Kind: "dropcoll", Weight: 5}, {Kind: "insert", Weight: 16}, {Kind: "insertone", Weight: 2},
 			{Kind: "save", Weight: 5}, {Kind: "replace", Weight: 6}, {Kind: "updatebyid", Weight: 7}, {Kind: "update", Weight: 10},
 			{Kind: "updatefunc", Weight: 10}, {Kind: "delete", Weight: 8}, {Kind: "deletebyid", Weight: 6}, {Kind: "createindex", Weight: 8},
 			{Kind: "dropindex", Weight: 6}, {Kind: "import", Weight: 7}, {Kind: "createbyquery", Weight: 7}, {Kind: "export", Weight: 3},
@@ -116,7 +116,7 @@ func c04Fault(s *sm.Session, op *cs.Op, k int64) *sm.Fail {
 	if err != nil {
 		return bad("harness", "dump: %v", err)
 	}
-	r := *op
+	r := sm.Materialize(*op)
 	if r.Path != "" && !strings.HasPrefix(r.Path, "/") {
 		r.Path = s.FilesDir() + "/" + r.Path
 	}
@@ -188,6 +188,13 @@ func TestC04(t *testing.T) {
 			do(build.Draw(rt, s))
 		}
 		op := p.Draw(rt, s)
+		if op.Q != nil && op.Kind != "createbyquery" && rapid.IntRange(0, 11).Draw(rt, "force-bad-literal") == 0 {
+			// invalid input of the query kind: an operand that cannot be normalised
+			op.Q.Crit = &cs.Crit{Op: rapid.SampledFrom([]string{"gt", "eq", "in"}).Draw(rt, "badop"), Field: "x", Arg: &cs.Operand{Kind: "bad"}}
+			if op.Q.Crit.Op == "in" {
+				op.Q.Crit.Arg, op.Q.Crit.Args = nil, []cs.Operand{{Kind: "bad"}}
+			}
+		}
 		stateOps := append([]cs.Op{}, s.Ops...)
 
 		// dry run on a clone: how many fallible store calls does the operation make?
@@ -198,7 +205,7 @@ func TestC04(t *testing.T) {
 		for _, o := range stateOps {
 			clone.Do(o)
 		}
-		r := op
+		r := sm.Materialize(op)
 		if r.Path != "" && !strings.HasPrefix(r.Path, "/") {
 			r.Path = clone.FilesDir() + "/" + r.Path
 		}
